@@ -372,6 +372,42 @@ def refused_then_registered(ctx, stmts):
             ctx.violate(mech + ":cc-on-after-refused-parse", msg, wit)
 
 
+def copy_onto_a_name_with_its_own_block(ctx, stmts, exp):
+    """The same file with one more statement in front, `CopyDecay X Y` for two mothers that both have their own Decay block (X's block is its table): every
+    table made by CDecay is still the conjugate of its source -- also when the source is itself a copy made by a later CopyDecay statement."""
+    blocks = [st["m"] for st in stmts if st["k"] == "Decay"]
+    cds = {st["name"] for st in stmts if st["k"] == "CDecay"}
+    made = [x for x in exp["derived"] if x in cds]
+    # X is no source of anything else (neither of a CDecay nor of another CopyDecay): which of X's two tables such a statement would mean is not stated by
+    # any property; here X's second table is simply one more entry in front of the copies that matter
+    conj = L.file_conj(exp["cc"])
+    used = {conj(n) for n in cds} | {st["b"] for st in stmts if st["k"] == "CopyDecay"} | cds
+    free = sorted(b for b in set(blocks) if b not in used)
+    if len(set(blocks)) < 2 or not made or not free:
+        return
+    x = ctx.rng.choice(free)
+    y = ctx.rng.choice(sorted(b for b in set(blocks) if b != x))
+    pos = ctx.rng.choice([0, 0, len(stmts) // 2])
+    st2 = stmts[:pos] + [{"k": "CopyDecay", "a": x, "b": y}] + stmts[pos:]
+    text2 = L.render(st2)
+    wit = {"kind": "generated", "text": text2, "copy_onto_existing_block": [x, y]}
+    ctx.case(text2, True, "gen")
+    ctx.hit("copydecay-onto-a-name-with-its-own-block-in-front-of-the-file")
+    ok, res = ctx.guard("parse", wit, snapshot.make_parser, text2)
+    if not ok:
+        return
+    for name in made:
+        want = [list(ln["fs"]) for ln in exp["derived"][name]]
+        try:
+            got = res[0].list_decay_modes(name)
+        except Exception as e:  # noqa: BLE001
+            ctx.violate("tables:derived:missing-when-a-copy-is-made-onto-a-name-with-its-own-block", f"list_decay_modes({name!r}) raised {type(e).__name__}: {e}; expected {want}", wit)
+            return
+        if got != want:
+            ctx.violate("tables:derived:fs:when-a-copy-is-made-onto-a-name-with-its-own-block", f"{name}: {got} expected {want}", wit)
+            return
+
+
 def run(ctx):
     for i in range(ctx.pick(120, 1500)):
         stmts, hits = gen_file(ctx)
@@ -380,6 +416,8 @@ def run(ctx):
         classify(ctx, stmts, hits, exp)
         if i % 4 == 0:
             refused_then_registered(ctx, stmts)
+        if i % 3 == 1:
+            copy_onto_a_name_with_its_own_block(ctx, stmts, exp)
         if i < 2:
             ctx.sample({"text": text, "conjugated_tables": {m: [list(map(str, L.line_tuple(x))) for x in v] for m, v in exp["derived"].items()}})
         if len(ctx.violations) >= ctx.max_violations:
